@@ -42,6 +42,7 @@ import nxpatch  # noqa: E402
 KINDS = os.environ.get("XH_KINDS", "ff-")  # one letter per store, last letter: fresh_time
 ZONE = os.environ.get("XH_ZONE", "utc")  # utc | fixed | fwd | back
 SHAPE = os.environ.get("XH_TSHAPE", "chain2")  # chain2: s0 -> s1 ; chain3u: s0 -> (unstored) -> s2 ; join: s0, s1 -> s2
+ANCHOR = 1623758400  # 2021-06-15 12:00:00 UTC (not a leap year; far from both year ends): the instant of the zone transition
 MAXOFF = 50400  # +-14 h
 MAXJUMP = 10800  # |L0 - L1| <= 3 h (CPython's fold detection itself assumes jumps below 24 h)
 SPAN = 1000000  # all instants within +-SPAN seconds of the transition (about 11 days)
@@ -425,6 +426,8 @@ def c18_stale(u0: int, o0: int, u1: int, o1: int, u2: int, o2: int, uf: int, of:
     begin()
     if not _zone_ok(L0, L1, X):
         return True
+    if X != ANCHOR:
+        return True  # instants are absolute (code may refer to the epoch): the transition sits at a fixed real instant, the mirror uses the same numbers
     Z.L0, Z.L1, Z.X = L0, L1, X
     us, offs = [u0, u1, u2], [o0, o1, o2]
     kind_of = {j: KINDS[i] for i, j in enumerate(STORED)}
@@ -470,7 +473,6 @@ def c18_stale(u0: int, o0: int, u1: int, o1: int, u2: int, o2: int, uf: int, of:
 
 
 # ----------------------------------------------------------------------------- the real thing (concrete calls only)
-ANCHOR = 1623758400  # 2021-06-15 12:00:00 UTC (not a leap year; far from both year ends)
 
 
 def posix_tz(L0, L1):
@@ -540,7 +542,7 @@ def c18_mtime_order(ua: int, ub: int, L0: int, L1: int, X: int) -> bool:
     post: _
     """
     begin()
-    if not _zone_ok(L0, L1, X):
+    if not _zone_ok(L0, L1, X) or X != ANCHOR:
         return True
     Z.L0, Z.L1, Z.X = L0, L1, X
     import uberjob._transformations.caching as caching
